@@ -763,6 +763,12 @@ class ExprRewriter(ast.NodeTransformer, EmitterMixin):
             self.generic_visit(node.args)
         for elt in node.body:
             self.visit(elt)
+        node.decorator_list = self._visit_decorators(node)
+        return node
+
+    def _visit_decorators(
+        self, node: Union[ast.FunctionDef, ast.AsyncFunctionDef, ast.ClassDef]
+    ) -> List[ast.expr]:
         new_decorator_list = []
         for idx, decorator in enumerate(node.decorator_list):
             if not self.handler_predicate_by_event[TraceEvent.decorator](decorator):
@@ -778,10 +784,18 @@ class ExprRewriter(ast.NodeTransformer, EmitterMixin):
                         decorator_idx=fast.Num(idx),
                     )
                 )
-        node.decorator_list = new_decorator_list
-        return node
+        return new_decorator_list
 
     visit_FunctionDef = visit_AsyncFunctionDef = visit_FunctionDef_or_AsyncFunctionDef
+
+    def visit_ClassDef(self, node: ast.ClassDef):
+        # the decorators of a class are decorators too
+        decorator_list = node.decorator_list
+        node.decorator_list = []
+        self.generic_visit(node)
+        node.decorator_list = decorator_list
+        node.decorator_list = self._visit_decorators(node)
+        return node
 
     @fast.location_of_arg
     def visit_Return(self, node: ast.Return):
